@@ -16,6 +16,7 @@ func c04Opts(i int) lib.GenOpts {
 	opt.OrderedSiblings = true
 	opt.EmptyLeafLists = i%4 == 0
 	opt.Density = 0.7
+	opt.ZeroLenBinary = true
 	return opt
 }
 
